@@ -58,3 +58,94 @@ def _cls_witness(case, vals, gvals):
 
 class_preamble.witness = _cls_witness
 CONTRACTS = [class_preamble]
+
+# ------------------------------------------------------------------------------------------- emit.function (C03 / C16 / C06: the whole constructor)
+_FN_OPAQUE = {"to_docstring": {"ret": "str"}, "ast_parse_fix": {"ret": ("obj", "ast.expr")}, "ast.parse": {"ret": ("obj", "ast.Module")}}
+_S1 = ("node", "ast.Pass", {})
+_S2 = ("node", "ast.Expr", {"value": ("node", "ast.Constant", {"value": 1, "kind": None})})
+_SR = ("node", "ast.Return", {"value": ("node", "ast.Constant", {"value": 0, "kind": None})})
+
+
+def _fn_ir(body=None, ret=None, kwargs=False):
+    params = {"p0": ("dict", {"typ": ("lit", "int"), "doc": "str", "default": "int"}), "p1": ("dict", {"typ": "str", "doc": "str"})}
+    if kwargs:
+        params["kwargs"] = ("dict", {"typ": ("lit", "Optional[dict]"), "doc": "str", "default": ("lit", "```(None)```")})
+    d = {"name": "str", "type": ("lit", "static"), "doc": "str", "params": ("dict", params)}
+    if body is not None:
+        d["_internal"] = ("dict", {"body": ("list", body), "from_name": "str", "from_type": ("lit", "static")})
+    if ret == "default":
+        d["returns"] = ("dict", {"return_type": ("dict", {"typ": "str", "doc": "str", "default": "str"})})
+    elif ret == "nodefault":
+        d["returns"] = ("dict", {"return_type": ("dict", {"typ": "str", "doc": "str"})})
+    elif ret == "none":
+        d["returns"] = None
+    return ("dict", d)
+
+
+def _fn_case(name, ir, ftype=("lit", "static"), kwonly=True, inline=True, assume=()):
+    return Case(name, {"intermediate_repr": ir, "function_name": None, "function_type": ftype, "word_wrap": True, "emit_default_doc": False,
+                       "docstring_format": ("lit", "rest"), "indent_level": 2, "emit_separating_tab": True, "inline_types": inline,
+                       "emit_as_kwonlyargs": kwonly},
+                assume=["intermediate_repr['name'] != ''", "intermediate_repr['params']['p1']['typ'] not in ('int', 'float', 'complex', 'str', 'bool')"] + list(assume))
+
+
+_CARRY = "intermediate_repr['_internal']['from_name'] == intermediate_repr['name']"
+_FN_CASES = [
+    _fn_case("plain", _fn_ir()),
+    _fn_case("plain,positional", _fn_ir(), kwonly=False),
+    _fn_case("plain,method", _fn_ir(), ftype=("lit", "self"), kwonly=False),
+    _fn_case("plain,docstring-types", _fn_ir(), inline=False),
+    _fn_case("kwargs", _fn_ir(kwargs=True)),
+    _fn_case("body,no-return-entry", _fn_ir(body=[_S1, _S2]), assume=[_CARRY]),
+    _fn_case("body-ends-in-return,no-return-entry", _fn_ir(body=[_S1, _SR]), assume=[_CARRY]),
+    _fn_case("body-ends-in-return,return-default", _fn_ir(body=[_S1, _SR], ret="default"), assume=[_CARRY, "intermediate_repr['returns']['return_type']['default'] != ''"]),
+    _fn_case("body-ends-in-return,return-nodefault", _fn_ir(body=[_S1, _SR], ret="nodefault"), assume=[_CARRY]),
+    _fn_case("body,other-name", _fn_ir(body=[_S1, _SR]), assume=["not (%s)" % _CARRY]),
+    _fn_case("returns-None", _fn_ir(ret="none")),
+]
+_ALL = [c.name for c in _FN_CASES]
+_KWONLY = [c.name for c in _FN_CASES if c.params["emit_as_kwonlyargs"] is True]
+_B = "old_intermediate_repr['_internal']['body']"
+_SVD = "(D[1:-1] if len(D) > 2 and D[0] == D[-1] and D[0] in ('\"', \"'\") else D)".replace("D", "log_to_docstring_results[0]")
+
+emit_function = Contract(
+    "doctrans.emit:function",
+    properties=["C03", "C16", "C06", "C13"],
+    note="a description with an int parameter (with default) and a parameter of a non-scalar type (no default), optionally **kwargs, a carried body of two "
+         "statements and a return entry; to_docstring, ast_parse_fix and ast.parse are opaque and logged (their results are the docstring text and the parsed "
+         "type / return expressions); set_value, set_arg, get_internal_body are inlined",
+    cases=_FN_CASES,
+    ensures=[
+        Clause("FN-kind", "typeis(result, 'FunctionDef') and result.name == old_intermediate_repr['name']", note="a def named after the description"),
+        Clause("FN-frame", "unchanged(intermediate_repr, old_intermediate_repr)", note="C13: the caller's description is not modified"),
+        Clause("FN-kwonly-names", "[a.arg for a in result.args.kwonlyargs] == ['p0', 'p1'] and [a.arg for a in result.args.args] == []", when=_KWONLY,
+               note="C03: the parameters, in order, as keyword-only arguments (a **kwargs entry is not among them)"),
+        Clause("FN-positional-names", "[a.arg for a in result.args.args] == ['p0', 'p1'] and result.args.kwonlyargs == []", when=["plain,positional"]),
+        Clause("FN-receiver", "[a.arg for a in result.args.args] == ['self', 'p0', 'p1']", when=["plain,method"], note="a method gets its receiver first"),
+        Clause("FN-defaults", "result.args.kw_defaults[0].value == old_intermediate_repr['params']['p0']['default'] and result.args.kw_defaults[1].value is None "
+                              "and result.args.defaults == []", when=_KWONLY, note="C03: defaults stay aligned with their parameters; no default becomes None"),
+        Clause("FN-defaults-positional", "result.args.defaults[0].value == old_intermediate_repr['params']['p0']['default'] and result.args.defaults[1].value is None "
+                                         "and result.args.kw_defaults == []", when=["plain,positional", "plain,method"]),
+        Clause("FN-annotations", "result.args.kwonlyargs[0].annotation.id == 'int' and result.args.kwonlyargs[1].annotation is log_ast_parse_fix_results[0] "
+                                 "and log_ast_parse_fix_args[0][0] == old_intermediate_repr['params']['p1']['typ']", when=[c for c in _KWONLY if c != "plain,docstring-types"],
+               note="inline types: a scalar type by name, any other type as its parsed expression"),
+        Clause("FN-no-annotations", "result.args.kwonlyargs[0].annotation is None and result.args.kwonlyargs[1].annotation is None and log_ast_parse_fix_n == 0",
+               when=["plain,docstring-types"]),
+        Clause("FN-kwarg", "result.args.kwarg.arg == 'kwargs'", when=["kwargs"]),
+        Clause("FN-no-kwarg", "result.args.kwarg is None and result.args.vararg is None", when=[c for c in _ALL if c != "kwargs"]),
+        Clause("FN-docstring", "typeis(result.body[0], 'Expr') and result.body[0].value.value == %s and log_to_docstring_n == 1" % _SVD,
+               note="the first statement is the docstring rendered from the description (through set_value: one pair of enclosing quotes would be stripped)"),
+        Clause("FN-body-carried", "len(result.body) == 3 and unchanged(result.body[1], %s[0]) and unchanged(result.body[2], %s[1])" % (_B, _B),
+               when=["body,no-return-entry", "body-ends-in-return,no-return-entry", "body-ends-in-return,return-nodefault"],
+               note="C16: a carried body follows the docstring verbatim (same statements, same order) when the description has no return default"),
+        Clause("FN-body-return-replaced", "len(result.body) == 3 and unchanged(result.body[1], %s[0]) and typeis(result.body[2], 'Return') "
+                                          "and result.body[2].value is log_ast_parse_results[0].body[0].value" % _B,
+               when=["body-ends-in-return,return-default"],
+               note="C16: with a return default the body's final return is replaced by the described one - nothing else is dropped"),
+        Clause("FN-body-not-carried", "len(result.body) == 1", when=["plain", "plain,positional", "plain,method", "plain,docstring-types", "kwargs", "body,other-name", "returns-None"],
+               note="a body carried for another name is not used"),
+    ],
+    canaries=["len(result.body) == 1", "result.args.kwonlyargs == []"],
+)
+emit_function.opaque = _FN_OPAQUE
+CONTRACTS.append(emit_function)
